@@ -6,7 +6,7 @@
 EXTENDS OneD
 
 QuickN == [i_ \in 1..11 |-> i_ + 1]                                   \* 2..12
-ThoroughN == [i_ \in 1..63 |-> i_ + 1] \o <<99, 100, 127, 128, 255>>    \* 2..64, 99, 100, 127, 128, 255
+ThoroughN == [i_ \in 1..99 |-> i_ + 1] \o <<127, 128, 255, 256>>             \* 2..100, 127, 128, 255, 256
 QuickAlpha == <<<<-1, 2>>, <<5, 2>>>>
 ThoroughAlpha == <<<<-1, 2>>, <<0, 1>>, <<1, 3>>, <<1, 2>>, <<1, 1>>, <<5, 2>>>>
 QuickStep == <<<<1, 10>>, <<1, 2>>>>
